@@ -29,7 +29,7 @@ PROP = dict(
     assumptions=[
         "confirmed crashes are start-up probes (fecorpus::GATES), run in a child process before the stream: D53 (stack overflow on "
         "`fn f() { f }`), D54, D55, D56, D57 have been fixed and are regression inputs (a crash is a failing input again); D64 "
-        "(`array<>`), D65 (`PushNil(0); Pop` in the optimizer) and D66 (blanket `implement I for T`) have a fix pending: while such a "
+        "(`array<>`), D65 (`PushNil(0); Pop` in the optimizer) and D66 (blanket `implement I for T`) are fixed too (a50312a, 3b6ea2e, 73184d8) and probed at start-up like the others: while such a "
         "probe still crashes, crashes at the site it reports are counted under its id and named in a note; once it stops crashing "
         "it gates nothing",
         "deep nesting is bounded at 200 levels and judged with a 64 MB stack on an opt-level-1 build",
